@@ -521,6 +521,8 @@ inductive POp where
   | read | elem (i : Nat) | len | bytes | root | mut (op : HOp) | slice (a b : Nat) | nav (g : Nat)
   | sub (i : Nat) (op : HOp)   -- a mutation through the child view at key i (propagates into this view)
   | vbl                        -- value_byte_length()
+  | fork                       -- keep another view of the current backing
+  | fread (k : Nat)            -- read the whole value through the k-th kept view
 
 def toPOp : Sexp → Option POp
   | .list [.atom "read"] => some .read
@@ -529,6 +531,8 @@ def toPOp : Sexp → Option POp
   | .list [.atom "iter"] => some .read
   | .list [.atom "nav", g] => (atomNat g).map .nav
   | .list [.atom "vbl"] => some .vbl
+  | .list [.atom "fork"] => some .fork
+  | .list [.atom "fread", k] => (atomNat k).map .fread
   | .list [.atom "sub", i, op] => do pure (.sub (← atomNat i) (← toHOp op))
   | .list [.atom "slice", a, b] => do pure (.slice (← atomNat a) (← atomNat b))
   | .list [.atom "bytes"] => some .bytes
@@ -539,8 +543,13 @@ def okStr (o : Option String) : String := match o with | some s => "ok:" ++ s | 
 
 /-- one read / mutation op on a backing tree; a failed op leaves the tree unchanged (except a slice
     assignment, which keeps the writes made before the failing one) -/
-def stepPOp (t : Ty) (n : Node) (op : POp) : Node × String :=
+def stepPOp (t : Ty) (n : Node) (op : POp) (forks : List Node := []) : Node × String :=
   match op with
+  | .fork => (n, "ok:" ++ toString forks.length)
+  | .fread k =>
+    (n, match forks[k % (max forks.length 1)]? with
+      | some f => okStr ((Impl.readVal H t f).map valStr)
+      | none => "err")
   | .read => (n, okStr ((Impl.readVal H t n).map valStr))
   | .elem i => (n, okStr ((readElem t n i).map valStr))
   | .len => (n, okStr ((viewLen t n).map toString))
@@ -596,13 +605,14 @@ def stepPOp (t : Ty) (n : Node) (op : POp) : Node × String :=
     if okAll then (fin, "ok:" ++ hexOf (fin.root H)) else (fin, "err")
 
 def runPOps (t : Ty) (n0 : Node) (ops : List POp) (key : String) : List String :=
-  let rec go (k : Nat) (n : Node) (ops : List POp) (acc : List String) : List String :=
+  let rec go (k : Nat) (n : Node) (forks : List Node) (ops : List POp) (acc : List String) : List String :=
     match ops with
     | [] => acc.reverse
     | op :: rest =>
-      let (n', res) := stepPOp t n op
-      go (k + 1) n' rest (kv (toString k ++ "." ++ key) res :: acc)
-  go 0 n0 ops []
+      let (n', res) := stepPOp t n op forks
+      let forks' := match op with | .fork => forks ++ [n] | _ => forks
+      go (k + 1) n' forks' rest (kv (toString k ++ "." ++ key) res :: acc)
+  go 0 n0 [] ops []
 
 /-- is this op a mutation other than a slice assignment -/
 def POp.isAtomicMut : POp → Bool
@@ -615,14 +625,15 @@ def POp.isAtomicMut : POp → Bool
     partial tree is not applied to the complete tree either (answer `skip`), so that the two keep denoting the
     same value and every later result stays comparable -/
 def runPOpsLock (t : Ty) (p0 n0 : Node) (ops : List POp) : List String :=
-  let rec go (k : Nat) (p n : Node) (ops : List POp) (acc : List String) : List String :=
+  let rec go (k : Nat) (p n : Node) (fp fn : List Node) (ops : List POp) (acc : List String) : List String :=
     match ops with
     | [] => acc.reverse
     | op :: rest =>
-      let (p', rp) := stepPOp t p op
-      let (n', rn) := if op.isAtomicMut && rp == "err" then (n, "skip") else stepPOp t n op
-      go (k + 1) p' n' rest (kv (toString k ++ ".ic") rn :: kv (toString k ++ ".i") rp :: acc)
-  go 0 p0 n0 ops []
+      let (p', rp) := stepPOp t p op fp
+      let (n', rn) := if op.isAtomicMut && rp == "err" then (n, "skip") else stepPOp t n op fn
+      let (fp', fn') := match op with | .fork => (fp ++ [p], fn ++ [n]) | _ => (fp, fn)
+      go (k + 1) p' n' fp' fn' rest (kv (toString k ++ ".ic") rn :: kv (toString k ++ ".i") rp :: acc)
+  go 0 p0 n0 [] [] ops []
 
 def runPartial (t : Ty) (v : Val) (positions : List Nat) (ops : List POp) : String :=
   match Impl.construct H t v with
